@@ -4,6 +4,7 @@
   Per request the device acknowledges, rejects with a non-zero code, applies but loses the ACK, or
   loses the request (`Config.Outcome`); the device advertises ACK support.
 -/
+import NxsModel.Gen.CfgShape
 import NxsModel.Config
 import NxsModel.Lemmas.Config
 namespace Nxs.C11
@@ -51,6 +52,14 @@ theorem later_write_converges (d0 : Device) (flags : Nat) (ops : List Op) (hd : 
     (Info.divSupported flags = true →
       r.2.1.div = r.1.divNew ∧ r.1.divNow = r.1.divNew ∧ r.1.copyDiv = r.1.divNew) :=
   c11_converges d0 flags ops hd ha
+
+/-- the write path that `Config.lean` transcribes is present in the current source (regenerated facts):
+    a failed ACK only sets the doubt flag and returns; a positive ACK clears it and advances the state;
+    with the doubt flag set the full vector is sent; ACK timeouts as in `Gen.Comm` -/
+theorem source_shape :
+    Gen.CfgShape.enableWriteShape = true ∧ Gen.CfgShape.divWriteShape = true ∧
+    Gen.CfgShape.channelsWriteShape = true ∧ Gen.CfgShape.reportShape = true ∧
+    Gen.Comm.getAckShape = true := by decide
 
 /-- non-vacuity: the historical defect (applied, ACK lost, then a single-channel change) converges -/
 example : (after ⟨[false, false, false], [0, 0, 0]⟩ 3
